@@ -42,7 +42,10 @@ Definition NodeCanonAt (va : N) (w : world) (ff : option N) (n : node) : Prop :=
   (exists nm, ElemNameOk tab_el (n_name n) nm) /\
   AttrsOk T tab_at tab_en check_fn float_fmt float_parse va (n_type n) (map (fun a => (fst a, to_pc (snd a))) (n_attrs n)) /\
   (exists mode kitems named, content_mode T (n_type n) = Val mode /\ kept_items w ff (n_content n) = Some kitems /\
-     ShapeKept mode kitems /\ is_named_in_version T (n_type n) ver = Val named) /\
+     ShapeKept mode kitems /\ is_named_in_version T (n_type n) ver = Val named /\
+     (* only a SHORT-NAME that is the FIRST content item names the element for the loader (parser.rs, fix of the late
+        SHORT-NAME defect): the kept content of a named element starts with it *)
+     (named = true -> exists r, kitems = Some (name_short_name T) :: r)) /\
   (forall d, In (CData d) (n_content n) -> TextOk T tab_en check_fn float_fmt float_parse ver (n_type n) (to_pc d)).
 
 (* every element except the root *)
